@@ -1,5 +1,5 @@
 // auto-generated: "lalrpop 0.23.1"
-// sha3: a0b6190d510d84bb10479a3eb5d441e098e025ff1cb8ac939c52c3ecc8e4475f
+// sha3: 5911f5cde2e56fabf964628f11d3283e9cd7bb186f0ffb81e5f558922dad6a2f
 #[allow(unused_extern_crates)]
 extern crate lalrpop_util as __lalrpop_util;
 #[allow(unused_imports)]
@@ -641,7 +641,7 @@ fn __action1<
     (_, __0, _): (usize, &'input str, usize),
 ) -> String
 {
-    b'}' as char.to_string()
+    (b'}' as char).to_string()
 }
 
 #[allow(unused_variables)]
